@@ -6,7 +6,7 @@ ROOT = os.path.dirname(os.path.dirname(os.path.abspath(__file__)))
 REPO = os.environ.get('AVEL_REPO', '/repo')
 sys.path.insert(0, os.path.join(ROOT, 'extract'))
 sys.path.insert(0, os.path.join(ROOT, 'contracts'))
-CACHE = os.path.join(ROOT, '.cache')
+CACHE = os.environ.get('VERIF_CACHE') or os.path.join(ROOT, '.cache')
 NPROC = int(os.environ.get('VERIF_JOBS', os.cpu_count() or 8))
 
 sys.path.insert(0, os.path.join(ROOT, 'models'))
